@@ -339,6 +339,14 @@ func monitorText(c *vh.Ctx, h string, d []byte, acc bool, got common.Address, rp
 		if ob, _ := got.Bytes(); s.minimal && !bytes.Equal(ob, d) {
 			v("text-decode-lossy", fmt.Sprintf("NewAddress(%s).Bytes()=%x, the text carries %x", rp.Text, ob, d))
 		}
+		// text -> address -> text must give back the (lower-cased) text
+		if p, _ := vh.Recover(func() {
+			if str := got.String(); s.minimal && wellFormed && str != strings.ToLower(rp.Text) {
+				v(fmt.Sprintf("text-roundtrip-lossy-string:type%d", s.ty), fmt.Sprintf("NewAddress(%s).String() = %s", rp.Text, str))
+			}
+		}); p {
+			v("address-panic", "String() panicked on the address parsed from "+rp.Text)
+		}
 		return
 	}
 	if wellFormed && d[0]>>4 != 8 && strings.ToLower(h) == specHrp(s.ty, s.net) {
